@@ -119,6 +119,12 @@ def outS : Out → String
 def admS (a : Adm) : String := s!"{h a.id}.{h a.sub}.{h a.provId}.{b a.super}"
 def provS (p : Prov) : String := s!"{h p.id}.{h p.name}.{h p.tok}"
 
+/-- … with the name policy the record / the running provisioner carries (stage `auth`) -/
+def provPS (p : Prov) : String :=
+  provS p ++ "." ++ (match p.pol with
+    | some q => if q.kind = .engine then h q.tag else "!"
+    | none => "!")
+
 /-- everything the public API of the two collections shows, maps sorted by key -/
 def dump (s : Cache) : String :=
   let A := s.A
@@ -227,9 +233,9 @@ def authDump (univ : List Str) (s : Auth) : String :=
   let P := s.cache.P
   let aList := join (A.sorted.map admS)
   let aSp := join (sortS (A.bySubProv.map fun e => s!"{h e.1.1}/{h e.1.2}={h e.2.id}"))
-  let pList := join (sortS (P.sorted.map fun e => provS e.2))
+  let pList := join (sortS (P.sorted.map fun e => provPS e.2))
   let dA := join ((s.db.adms.mergeSort fun x y => strKeyLe x.id y.id).map admS)
-  let dP := join (sortS (s.db.provs.map provS))
+  let dP := join (sortS (s.db.provs.map provPS))
   s!"A[{aList}]S[{aSp}]P[{pList}]dA[{dA}]dP[{dP}]pol={polTag s.db.policy}E[{engineS s.engine univ}]"
 
 def authOp (univ : List Str) (s : Auth) (tok : String) : Option (Auth × String) :=
@@ -262,14 +268,14 @@ def authOp (univ : List Str) (s : Auth) (tok : String) : Option (Auth × String)
     match Auth.migrate migrateAtomic faults s.db m with
     | (db', _, some o) =>
       let dA := join ((db'.adms.mergeSort fun x y => strKeyLe x.id y.id).map admS)
-      let dP := join (sortS (db'.provs.map provS))
+      let dP := join (sortS (db'.provs.map provPS))
       pure ({ s with db := db' }, authOutS o ++ "#" ++ s!"dA[{dA}]dP[{dP}]")
     | _ =>
       let r := Auth.firstStart current migrateAtomic faults s.db m
       if r.2 = .ok then fin r else
         -- the start failed in the reload: there is no running CA, only the database
         let dA := join ((r.1.db.adms.mergeSort fun x y => strKeyLe x.id y.id).map admS)
-        let dP := join (sortS (r.1.db.provs.map provS))
+        let dP := join (sortS (r.1.db.provs.map provPS))
         -- (a CA that was running before keeps running on its caches)
         pure ({ s with db := r.1.db }, authOutS r.2 ++ "#" ++ s!"dA[{dA}]dP[{dP}]")
   | ["boot"] => fin (Auth.step current [] s .restart)
